@@ -35,8 +35,7 @@ Theorem C18_frame : forall snell csign p sl u, In (p, (sl, u)) spec_table ->
     agree_except (config_key sl) (config_num (f s v)) (config_num s).
 Proof. exact frame_all. Qed.
 
-(* value: the named field shows the requested value, rounded to 4 decimals like every field of the view (the idler waist position is
-   not rounded by the view; an external angle shows the Snell-equivalent internal angle; a frequency shows as the vacuum wavelength
+(* value: the named field shows the requested value, rounded to 4 decimals like every field of the view (an external angle shows the Snell-equivalent internal angle; a frequency shows as the vacuum wavelength
    c / (v 1e12) in nm).  Guards: internal polar angle in (-180, 180], azimuth in [0, 360), wavelength / frequency non-zero, Snell result
    in (-pi, pi]. *)
 Theorem C18_value : forall snell csign p sl u, In (p, (sl, u)) spec_table -> sl <> SPolingPeriod ->
